@@ -46,7 +46,7 @@ CLAIMS["C20"] = dict(
     cat="proof",
     text="Value-determinism of the ordering kernels through which allocation addresses could reach results: CmpNodePos, compare_events, CompareConstraints, ANodeCmp are "
          "proved (all field values) to return a stated function of values and to evaluate no relational comparison of pointers to different objects (CBMC same-object check); "
-         "PseudoRandom::getNext is a function of the seed only and ConstrainedFDLayout::offsetDir reads/writes no generator state outside its own layout object (frame condition); bounded: dijkstra writes every entry of a distance row (no heap garbage reaches the layout); transposition symmetry of the A* turn-pruning block and translation invariance of bends (relational, two calls of the real code). "
+         "PseudoRandom::getNext is a function of the seed only and ConstrainedFDLayout::offsetDir reads/writes no generator state outside its own layout object (frame condition); bounded: Node::firstPointAbove/firstPointBelow of libavoid's scan line are mirror twins (boundary cases included); bounded: dijkstra writes every entry of a distance row (no heap garbage reaches the layout); transposition symmetry of the A* turn-pruning block and translation invariance of bends (relational, two calls of the real code). "
          "Whole-run bit-identity, scene symmetries of whole routes and permutation invariance of VPSC are undecided residue.",
     note=BASE_TB + "CmpNodePos precondition 'distinct nodes have distinct variable ids' is by inspection of the callers. Address tie-breaks in CmpVertInf, CmpVisEdgeRotation's "
          "fallback and ActionInfo::operator< (ConnectionPinChange) are listed as not under obligation.",
@@ -56,10 +56,10 @@ CLAIMS["C20"] = dict(
 CLAIMS["C15"] = dict(
     cat="proof",
     text="Safety-class obligations (bounds, pointer validity, overflow, internal COLA_ASSERTs, frames, initialisation) of the functions under contract only: ActionInfo's six "
-         "constructors determine type/objPtr/firstMove from their arguments; IncSolver::mostViolated indexes in bounds for every list length; Blocks::cleanup (bounded); and "
+         "constructors determine type/objPtr/firstMove from their arguments; IncSolver::mostViolated indexes in bounds and dereferences only live constraints for every list length, and takes out of the list exactly the constraint it returns; Blocks::cleanup (bounded); PairingHeap::combineSiblings keeps every index into its scratch array in bounds (bounded: one job per sibling count up to two beyond the array's initial size); and "
          "the safety obligations of the C05/C16/C01/C20 contract jobs; ConnRef's destructor purges the router's pending-action queue for the connector in every state; bounded: freeAssociatedObjects releases each compound constraint exactly once. Histories of API calls, lifetimes, leaks, termination are undecided residue (most of C15).",
     note=BASE_TB + "Only functions under contract, each under a call-site precondition. CBMC's treatment of uninitialised members as unconstrained values is the "
-         "initialisation oracle. mostViolated runs with --no-pointer-check (elements unconstrained).",
+         "initialisation oracle. mostViolated states 'element i of the list is object i of a pool of live constraints' through the stub vector's element hook (pointer checks on).",
     tech="CBMC code contracts + built-in safety checks on verbatim slices; two-construction determinism harness for uninitialised members; native placement-new replay",
     ref="5/C15")
 
@@ -78,7 +78,7 @@ CLAIMS["C09"] = dict(
     text="Kernel clauses of C09 under contract: moveCentreX/Y, moveMinX/Y keep width/height and the other axis; overlapX/Y > 0 iff open extents intersect; every generated "
          "separation (the six sep expressions of generateX/YConstraints) separates its pair under any placement satisfying it; removeoverlaps restores the x/y border statics "
          "(projection fragment, two calls under different borders); generateX/YConstraints set every variable's desired position to its rectangle's current centre (loop shells "
-         "for any number of rectangles + projected bodies); Solver::solve returns the state after refinement (C01's driver job, run here too); bounded: a pass of Solver::refine ends solved only after examining every block. 'No two rectangles overlap', acyclicity and the size of a fixed rectangle's movement are undecided residue.",
+         "for any number of rectangles + projected bodies); Solver::solve returns the state after refinement (C01's driver job, run here too); bounded: a pass of Solver::refine ends solved only after examining every block; bounded: removeoverlaps moves EVERY rectangle, fixed or not, to its variable's final position after the x and the y solve. 'No two rectangles overlap', acyclicity and the size of a fixed rectangle's movement are undecided residue.",
     note=BASE_TB + "Scaled-integer mode (machine arithmetic treated as mathematical) for the size/separation jobs; projection fragment with a syntactic premise checked every run; "
          "exception path of removeoverlaps not covered.",
     tech="CBMC harness proofs on verbatim slices of inline members and expression/projection fragments; scaled-integer arithmetic mode; native multi-call replay",
@@ -116,7 +116,7 @@ CLAIMS["C07"] = dict(
          "constraint's dimension, invalid indices reported; guide-line variables are appended with their index as id. (2) project() constructs the solver over the lists it was "
          "given, reads every coordinate back after solve(), each equal to that variable's finalPosition. (3) checkUnsatisfiable reports every flagged constraint as itself with "
          "its maker; the same two links on the majorization path (GradientProjection::runSolver case Off, destroyVPSC). (4) makeFeasible's scan after each tentative "
-         "alternative: a flag on ANY constraint of the valid set is cleared and vetoes the alternative (any size, loop contract; plus a bounded job that survives rewrites). (5) SeparationConstraint's constructors composed with its translation: what the user "
+         "alternative: a flag on ANY constraint of the valid set is cleared and vetoes the alternative (any size, loop contract; plus a bounded job that survives rewrites); bounded whole-function job: every alignment pair of a distribution, whatever came before it, yields its equality. (5) SeparationConstraint's constructors composed with its translation: what the user "
          "constructs (operands, gap of either sign, relation) is what VPSC receives. With C01 (normal return => every unflagged constraint satisfied) these give: after ONE projection every generated user constraint holds or is reported. "
          "NOT decided: that run()/makeFeasible() END in such a projection (the descent step after project() in applyForcesAndConstraints, makeFeasible's rollback), the 1e-4 "
          "tolerance, rectangle sizes, NaN/inf freedom, ConstrainedMajorizationLayout, PageBoundary/OrthogonalEdge constraints, virtual dispatch from setupVarsAndConstraints.",
